@@ -19,6 +19,21 @@ theorem good_aliasColWrite (F : Facts15) [d : DeepCopy F] (a : Nat) (kw : Kw) :
   · simp only [d.deep, beq_self_eq_true, if_true]
     exact Good.pure' _ trivial
 
+theorem good_protMerge (F : Facts15) [d : DeepCopy F] (prot : Option Nat) (kw : Kw) :
+    Good n na T (protMerge F prot kw) Any := by
+  unfold protMerge
+  split
+  · exact Good.pure' _ trivial
+  · refine Good.bind Good.getHeap (fun h _ => ?_)
+    split
+    · exact Good.fail _
+    · split
+      · exact Good.pure' _ trivial
+      · have hb : (F.protCopy == ProtCopy.shared) = false := by rw [d.protCopied]; rfl
+        refine Good.bind (P := Any) ?_ (fun _ _ => Good.pure' _ trivial)
+        rw [hb]
+        exact Good.pure' _ trivial
+
 theorem good_allocDerived (F : Facts15) [DeepCopy F] (a : Nat) (kw : Kw) :
     Good n na T (allocDerived F a kw) Any := by
   unfold allocDerived
@@ -224,11 +239,13 @@ theorem goodMand (F : Facts15) [DeepCopy F] (hF : F.mandRule = .copies) (fuel : 
         · exact Good.fail _
 
 theorem good_subclassOp (F : Facts15) (base : Option Nat) (name : String) (ns : Option String)
-    (fields : List (String × Nat)) (perm : List Nat) (attrs : Option Kw) :
-    Good n na T (subclassOp F base name ns fields perm attrs) (Fresh n) := by
+    (fields : List (String × Nat)) (perm : List Nat) (attrs : Option Kw) (mixins : List Nat) (asMixin : Bool) :
+    Good n na T (subclassOp F base name ns fields perm attrs mixins asMixin) (Fresh n) := by
   unfold subclassOp
   refine Good.bind (Good.getCls _) (fun bc _ => ?_)
   refine Good.bind (Good.liftExcept _) (fun ext _ => ?_)
+  refine Good.bind Good.getHeap (fun h _ => ?_)
+  refine Good.bind (Good.guardNone _) (fun _ _ => ?_)
   exact Good.allocBoth _ _
 
 theorem good_xmlattrOp (F : Facts15) (src : Nat) : Good n na T (xmlattrOp F src) (Fresh n) := by
